@@ -451,6 +451,10 @@ def _exec_flags(doc, res):
         if not usable:
             continue
         chosen = set(rng.sample(usable, rng.randrange(0, len(usable) + 1)))
+        if chosen and rng.random() < 0.3:
+            # the same flags given as a list with a repeated member: the OR of the members is unchanged
+            chosen = sorted(chosen) + [rng.choice(sorted(chosen))]
+            rng.shuffle(chosen)
         expected_int = 0
         for member in chosen:
             expected_int |= int(member) >> shift
@@ -464,7 +468,7 @@ def _exec_flags(doc, res):
         if composed != expected:
             res.violation((PROPERTY, 'flags-compose-differs', flag_class.__name__, shift),
                           'flag sets map to the OR of their members', '%s -> %s, expected %s' % (
-                              sorted(m.name for m in chosen), composed.hex(), expected.hex()))
+                              [m.name for m in chosen], composed.hex(), expected.hex()))
             break
         parser = ParserBinary(expected, byte_order=order)
         ok, _ = _guard(res, (PROPERTY, 'flags-parse-failed', flag_class.__name__, shift), 'and back',
@@ -493,6 +497,13 @@ def _ssh_mpint_reference(value):
     else:
         body = value.to_bytes((value + 1).bit_length() // 8 + 1, 'big', signed=True)
     return len(body).to_bytes(4, 'big') + body
+
+
+def _compose_one(value):
+    from cryptoparser.common.parse import ComposerBinary
+    composer = ComposerBinary()
+    composer.compose_ssh_mpint(value)
+    return bytes(composer.composed_bytes)
 
 
 def _exec_mpint(doc, res):
@@ -548,6 +559,40 @@ def _exec_mpint(doc, res):
                 res.violation((PROPERTY, 'fixed-mpint-round-trip',), 'fixed-length mpints round-trip', '%d bits, %d bytes' % (value.bit_length(), length))
                 break
             res.stats['mpint.fixed_checked'] += 1
+    # several mpints one after another in one buffer / one parser (how keys carry them), after a prefix
+    if not res.violations:
+        sequence = [rng.choice(values) for _ in range(rng.randrange(2, 6))]
+        prefix = bytes(rng.getrandbits(8) for _ in range(rng.choice((0, 0, 1, 4, 7))))
+        composer = ComposerBinary()
+        composer.compose_raw(prefix)
+        ok = True
+        for value in sequence:
+            ok, _ = _guard(res, (PROPERTY, 'ssh-mpint-failed', 'sequence'), 'SSH mpints round-trip for every integer',
+                           composer.compose_ssh_mpint, value)
+            if not ok:
+                break
+        if ok:
+            expected = prefix + b''.join(_ssh_mpint_reference(v) if v >= 0 else None or _compose_one(v) for v in sequence)
+            data = bytes(composer.composed_bytes)
+            if data != expected:
+                res.violation((PROPERTY, 'ssh-mpint-sequence-differs',), 'composing several mpints concatenates their encodings', '')
+            parser = ParserBinary(data)
+            if prefix:
+                parser.parse_raw('prefix', len(prefix))
+            back = []
+            for number in range(len(sequence)):
+                ok, _ = _guard(res, (PROPERTY, 'ssh-mpint-failed', 'sequence-parse'), 'SSH mpints round-trip for every integer',
+                               parser.parse_ssh_mpint, 'm%d' % number)
+                if not ok:
+                    break
+                back.append(parser['m%d' % number])
+            if ok and back != sequence:
+                wrong = next(i for i, (a, b) in enumerate(zip(back, sequence)) if a != b)
+                res.violation((PROPERTY, 'ssh-mpint-round-trip', 'sequence'), 'SSH mpints round-trip for every integer',
+                              'mpint #%d of %d in one buffer (after a %d byte prefix): a %s%d-bit value parsed back as a %s%d-bit value' % (
+                                  wrong, len(sequence), len(prefix), '-' if sequence[wrong] < 0 else '', sequence[wrong].bit_length(),
+                                  '-' if back[wrong] < 0 else '', back[wrong].bit_length()))
+            res.stats['mpint.sequences_checked'] += 1
     res.event('mpint', doc['seed'])
     res.sched_sig = ('mpint', doc['seed'] % 64)
     res.nontrivial = True
